@@ -158,7 +158,10 @@ class HashTable:
             raise ValueError(
                 f"Could not add hash tables with differing keys ({self._keys, other._keys})"
             )
-        return HashTable(self._keys, self._values + other._values)
+        value_dtype = None
+        if self._value_dtype is not None and other._value_dtype is not None:
+            value_dtype = np.result_type(self._value_dtype, other._value_dtype)
+        return HashTable(self._keys, self._values + other._values, value_dtype=value_dtype)
 
     def __iadd__(self, other):
         if isinstance(other, Number):
